@@ -14,6 +14,7 @@ From V Require Import Spec.GkdiSpec Spec.KekSpec Spec.DerSpec.
 From V Require Import Proofs.Asn1Lib Proofs.Asn1Hdr Proofs.Asn1Tlv Proofs.Asn1Int Proofs.Asn1Oid Proofs.Asn1Str Proofs.Asn1Tree Proofs.C07.
 From V Require Import Proofs.BlobLib Proofs.BlobPkcs7 Proofs.GkdiLib Proofs.GkdiKeyId Proofs.BlobMain.
 From V Require Import Proofs.C02 Proofs.C09 Proofs.C10 Proofs.KekLib Proofs.Kek Proofs.KekExamples.
+From V Require Proofs.SecDescStr.
 
 (* ---- GCM parameters: SEQUENCE { OCTET STRING nonce, INTEGER 16 } written, nonce read back ---- *)
 Lemma gcm_params_roundtrip iv : len iv < 65536 ->
@@ -546,3 +547,33 @@ Proof.
   cbn [gke_l1 gke_l2]. unfold covers in Hcov. cbn [env_of e_l1 e_l2] in Hcov. lia.
 Qed.
 End Inv.
+
+(* ---- an accepted SID string is ASCII, so its UTF-8 form is itself: sid_okb amounts to "shorter than 2^32" ---- *)
+Definition asciib (c : Z) : bool := (0 <=? c) && (c <? 128).
+Lemma utf8_encode_ascii s : forallb asciib s = true -> utf8_encode s = Ok s.
+Proof.
+  induction s as [|x s IH]; [reflexivity|]. cbn [forallb]. rewrite andb_true_iff. intros [Hx Hs]. unfold asciib in Hx.
+  cbn [utf8_encode]. unfold utf8_cp. assert (E : negb (scalar x) = false) by (unfold scalar, is_surrogate; lia). rewrite E.
+  destruct (x <? 128) eqn:E2; [|lia]. cbn [bind]. rewrite (IH Hs). reflexivity.
+Qed.
+Lemma forallb_app' {A} (f : A -> bool) a b : forallb f (a ++ b) = forallb f a && forallb f b.
+Proof. induction a as [|x a IH]; cbn [app forallb]; [reflexivity|]. rewrite IH. now rewrite andb_assoc. Qed.
+Lemma digits_ascii a : forallb is_digit a = true -> forallb asciib a = true.
+Proof.
+  induction a as [|x a IH]; [reflexivity|]. cbn [forallb]. rewrite !andb_true_iff. intros [Hx Ha]. split; [unfold is_digit in Hx; unfold asciib; lia|auto].
+Qed.
+Lemma digit_str_ascii a : digit_str a = true -> forallb asciib a = true.
+Proof. destruct a as [|x a]; [discriminate|]. unfold digit_str. apply digits_ascii. Qed.
+Lemma sid_parse_okb str s : sid_parse str = Ok s -> len str < 4294967296 -> sid_okb str = true.
+Proof.
+  intros Hp Hl. destruct (Proofs.SecDescStr.sid_parse_accepts str s Hp) as (r & a & subs & E & Hr & Ha & _ & Hsubs & _).
+  assert (Hascii : forallb asciib str = true).
+  { subst str. change ([83; 45; r; 45] ++ a ++ concat (map (cons 45) subs)) with (83 :: 45 :: r :: 45 :: (a ++ concat (map (cons 45) subs))).
+    cbn [forallb]. rewrite forallb_app', (digit_str_ascii a Ha).
+    assert (Hr' : asciib r = true) by (unfold is_digit in Hr; unfold asciib; lia). rewrite Hr'.
+    change (asciib 83) with true. change (asciib 45) with true. cbn [andb].
+    clear -Hsubs. induction subs as [|p subs IH]; [reflexivity|]. cbn [forallb] in Hsubs. rewrite andb_true_iff in Hsubs. destruct Hsubs as [Hp Hs].
+    cbn [map concat]. change ((45 :: p) ++ concat (map (cons 45) subs)) with (45 :: (p ++ concat (map (cons 45) subs))).
+    cbn [forallb]. change (asciib 45) with true. rewrite forallb_app', (digit_str_ascii p Hp), (IH Hs). reflexivity. }
+  unfold sid_okb. rewrite (utf8_encode_ascii str Hascii). unfold U32. lia.
+Qed.
